@@ -41,6 +41,7 @@ _CALC_ROLE_BY_TOKEN: Dict[str, Role] = {
     tokens.IDENTIFIER: Role.IDENTIFIER,
     tokens.ATTRIBUTE: Role.ATTRIBUTE,
     tokens.MEASURE: Role.MEASURE,
+    tokens.VIRAL_ATTRIBUTE: Role.VIRAL_ATTRIBUTE,
 }
 
 
